@@ -174,3 +174,126 @@ def is_byte_size(fx, sz, fmt_idx, cnt_idx):
         ob = fx.body('asefile::pixel::output_size')
         return ob is not None and product(res(ob).ret(), 1, 2) and is_param(strip_casts(sz[2][0]), fmt_idx) and is_param(strip_casts(sz[2][1]), cnt_idx)
     return product(sz, fmt_idx, cnt_idx)
+
+
+ARM_STATE = {
+    'Layer': {'layers', 'user_data_context'}, 'Cel': {'framedata', 'user_data_context'}, 'Tags': {'tags', 'user_data_context'},
+    'Palette': {'palette'}, 'OldPalette04': {'palette', 'user_data_context'}, 'OldPalette11': {'palette', 'user_data_context'},
+    'UserData': {'framedata', 'layers', 'slices', 'sprite_user_data', 'tags', 'user_data_context'},
+    'Slice': {'slices', 'user_data_context'}, 'ExternalFiles': {'external_files'}, 'Tileset': {'tilesets'}, 'ColorProfile': {'color_profile'},
+    'CelExtra': set(), 'Mask': set(), 'Path': set(),
+}
+
+
+def arm_state_independence(ctx, rule):
+    """each chunk kind touches (reads, writes or borrows) only its own part of the parser state - the tables the format says it
+    feeds, plus the user-data context.  A Cel arm that looks at the layers seen so far (seeds C02-m, C09-m, C15-m: cels whose layer
+    chunk comes later are skipped or refused), a Tileset arm that looks at the frame number .. makes the result depend on the order
+    in which a writer happened to emit its chunks.  ParseInfo methods are inlined into the arms first."""
+    fx = ctx.fx
+    PF = 'asefile::parse::parse_frame'
+    b0 = ctx.anchor(PF)
+    if b0 is None:
+        return
+    helpers = [b.name for b in fx.bodies if b.name.startswith('asefile::parse::ParseInfo::') and '{closure' not in b.name
+               and b.name.split('::')[-1] not in ('new', 'validate')]
+    v = fx.inlined_view(PF, helpers) or b0
+    arms = dispatch_arms(v)
+    pis = [i for i in range(1, v.arg_count + 1) if v.locals[i]['ty'].replace(' ', '') == '&mutparse::ParseInfo']
+    if arms is None or not pis:
+        ctx.fail(PF + '|%s|no-dispatch' % rule, 'parse_frame: no ChunkType dispatch / ParseInfo parameter found')
+        return
+    aliases = {pis[0]}
+    changed = True
+    while changed:
+        changed = False
+        for blk in v.blocks:
+            for st in blk['stmts']:
+                if st['k'] == 'assign' and not st['p']['p']:
+                    rv = st['rv']
+                    src = None
+                    if rv['k'] == 'use' and rv['op'].get('k') in ('copy', 'move') and not rv['op']['p']['p']:
+                        src = rv['op']['p']['l']
+                    if rv['k'] == 'ref' and rv.get('p', {}).get('p') == [{'k': 'deref'}]:
+                        src = rv['p']['l']
+                    if src in aliases and st['p']['l'] not in aliases:
+                        aliases.add(st['p']['l'])
+                        changed = True
+
+    def touched(blk):
+        out = set()
+
+        def rec(o):
+            if isinstance(o, dict):
+                if 'l' in o and isinstance(o.get('p'), list):
+                    pr = o['p']
+                    if o['l'] in aliases and len(pr) > 1 and pr[0].get('k') == 'deref' and pr[1].get('k') == 'field':
+                        out.add(pr[1]['n'])
+                for x in o.values():
+                    rec(x)
+            elif isinstance(o, list):
+                for x in o:
+                    rec(x)
+        rec(blk['stmts'])
+        rec(blk['term'])
+        return out
+    n = 0
+    for kind, s_, reg, sw in arms:
+        if kind not in ARM_STATE:
+            continue
+        n += 1
+        t = set()
+        for bi in reg:
+            t |= touched(v.blocks[bi])
+        extra = sorted(t - ARM_STATE[kind])
+        ctx.inst(rule, 'arm state ' + str(kind), not extra, '%s chunk touches parser state %s; beyond its own tables: %s' % (kind, sorted(t), extra or 'nothing'),
+                 v.blocks[s_]['term'].get('span') if v.blocks[s_]['term'] else None, key='%s|%s|state|%s' % (PF, rule, kind))
+    ctx.floor('dispatch arms judged for state independence', n, 12)
+
+
+# error values the loader builds itself on the pinned tree (constructions of AsepriteParseError::{InvalidInput, UnsupportedFeature,
+# InternalError, ..} in the loader cone and its closures), per function for the report; what is compared is the total
+REJECTIONS = {
+    "asefile::cel::CelContent::parse": 1, "asefile::cel::CelsData::add_cel": 1, "asefile::cel::CelsData::check_valid_frame_id": 1,
+    "asefile::cel::CelsData::validate": 2, "asefile::cel::RawCel::validate": 2, "asefile::color_profile::parse_chunk": 2,
+    "asefile::color_profile::parse_color_profile_type": 1, "asefile::layer::LayersData::from_vec": 1, "asefile::layer::LayersData::validate": 1,
+    "asefile::layer::compute_parents": 1, "asefile::layer::parse_blend_mode": 1, "asefile::layer::parse_layer_type": 1,
+    "asefile::palette::ColorPalette::validate_indexed_pixels": 1, "asefile::palette::parse_chunk": 1, "asefile::palette::scale_6bit_to_8bit": 1,
+    "asefile::parse::ParseInfo::add_user_data": 4, "asefile::parse::ParseInfo::set_tag_user_data": 2, "asefile::parse::check_chunk_bytes": 2,
+    "asefile::parse::parse_chunk_type": 1, "asefile::parse::parse_frame": 1, "asefile::parse::parse_pixel_format": 1,
+    "asefile::parse::read_aseprite": 2, "asefile::pixel::RawPixels::from_bytes": 2, "asefile::pixel::RawPixels::validate": 2,
+    "asefile::reader::AseReader::take_bytes": 1, "asefile::reader::AseReader::unzip": 1, "asefile::tags::parse_animation_direction": 1,
+    "asefile::tilemap::TilemapData::parse_chunk": 1, "asefile::tilemap::TilemapData::validate_tile_ids": 1,
+    "asefile::tileset::Tileset::parse_chunk": 2, "asefile::tileset::TilesetsById::validate": 1,
+}
+
+
+def rejection_inventory(ctx, rule):
+    """the loader builds an error value of its own (InvalidInput / UnsupportedFeature / InternalError ..) at N places (table above:
+    counted as constructions of AsepriteParseError variants other than IoError in the loader cone and its closures), each reviewed
+    against the format: a well-formed file reaches none of them.  One more construction anywhere in the loader is a new way to refuse
+    a file, and nothing shows that only malformed files meet it (seeds C09-m/n: "robustness" checks stricter than the format).
+    Counting constructions makes the rule blind to how the test in front of the error is spelled (`ok_or_else(..)?`, `match`,
+    `if x.is_none()`, merged `||` guards share one construction) and to moves between functions; a genuinely new, correct refusal of
+    malformed input has to be entered in the table."""
+    fx = ctx.fx
+    load = [fx.by_path[p] for p in sorted(CG.load_cone(fx)) if fx.by_path[p].kind != 'promoted']
+    names = {b.name for b in load}
+    bodies = list(load) + [b for b in fx.bodies if '{closure' in b.name and b.name.split('::{closure')[0] in names and b not in load]
+    got = {}
+    for b in bodies:
+        if b.name.startswith('asefile::<'):
+            continue
+        n = 0
+        for bb, st, t in q.stmt_aggs(b, 'asefile::error::AsepriteParseError'):
+            if t[2] != 'IoError':
+                n += 1
+        if n:
+            got[b.name.split('::{closure')[0]] = got.get(b.name.split('::{closure')[0], 0) + n
+    total, want = sum(got.values()), sum(REJECTIONS.values())
+    more = {k: (v, REJECTIONS.get(k, 0)) for k, v in got.items() if v > REJECTIONS.get(k, 0)}
+    ctx.inst(rule, 'explicit refusals in the loader', total <= want, 'the loader constructs an error value of its own at %d places (reviewed: %d)%s' % (
+        total, want, '; more than reviewed in: %s' % ', '.join('%s (%d, was %d)' % (k.split('asefile::')[-1], a_, b_) for k, (a_, b_) in sorted(more.items()))
+        if total > want else ''), None, key='LOAD|%s|refusals' % rule)
+    ctx.floor('error constructions found in the loader', total, 25)
+    ctx.extra['error_constructions_by_function'] = got
